@@ -192,10 +192,15 @@ class SymTimedelta(Model):
     def m_total_seconds(self, interp):
         return TotalSeconds(self)
 
+    def _ranged(self, interp, td):
+        if not interp.ctx.branch(z3.And(_t(td.days) >= -999999999, _t(td.days) <= 999999999)):
+            raise OverflowError("days out of range for timedelta")
+        return td
+
     def pyvc_unary(self, interp, op):
         import ast
         if isinstance(op, ast.USub):
-            return td_neg(self)
+            return self._ranged(interp, td_neg(self))
         if isinstance(op, ast.UAdd):
             return self
         raise Unsupported("unary operator on timedelta")
@@ -203,7 +208,7 @@ class SymTimedelta(Model):
     def pyvc_binop(self, interp, op, other, reflected):
         import ast
         if isinstance(op, ast.Mult) and isinstance(other, (int, SInt)) and not isinstance(other, bool):
-            return td_mul(self, other)
+            return self._ranged(interp, td_mul(self, other))
         raise Unsupported("timedelta arithmetic %s" % type(op).__name__)
 
 
